@@ -251,6 +251,24 @@ def run(c, prog, ctx):
         for st in ffs.body.stmts(bi):
             if st["k"] == "assign" and st["rv"]["k"] == "agg" and st["rv"].get("ak") == "array":
                 arrs.add(show(pf._rvalue(st["rv"], True), -9))
+    # ---- R5 prefix match is whole-string, case-insensitive equality
+    from .c15 import Fn as _Fn, sh as _sh, decide as _decide
+    MP = _Fn(prog, "address::match_prefix")
+    badlen = []
+    for a in range(0, 7):
+        for b_ in range(0, 7):
+            r = _decide(MP.L, {"a": a, "b": b_}, {"bech32::Hrp::len(arg2)": "a", "core::str::len(arg1)": "b"})
+            if a != b_ and r != ("ret", "0"):
+                badlen.append((a, b_, r))
+            if a == b_ and not (r[0] == "ret" and r[1].startswith("std::iter::Iterator::all(zip(")):
+                badlen.append((a, b_, r))
+    allret = [_sh(s_[1]) for cx, s_ in MP.flat if s_[0] == "ret" and "Iterator::all" in _sh(s_[1])]
+    MC = _Fn(prog, "address::match_prefix::{closure#0}")
+    cl = [_sh(s_[1]) for cx, s_ in MC.flat if s_[0] == "ret"]
+    c.inst("R5.prefix-match-exact", "a string's HRP matches a network only if it has the same length and equals it character by character ignoring case",
+           not badlen and allret == ["std::iter::Iterator::all(zip(bech32::Hrp::lowercase_char_iter(arg2), core::str::chars(arg1)), closure:address::match_prefix::{closure#0}{})"]
+           and cl == ["(arg2.0 Eq std::char::methods::to_ascii_lowercase(arg2.1))"],
+           "length table deviations %s; comparison %s with %s" % (badlen[:3], allret, cl), MP.f.where(), MP.f.path)
     c.inst("R5.three-networks", "FromStr iterates exactly LIQUID, ELEMENTS, LIQUID_TESTNET",
            arrs == {"array{address::AddressParams::LIQUID, address::AddressParams::ELEMENTS, address::AddressParams::LIQUID_TESTNET}"}
            or any(set(re.findall(r"address::AddressParams::(\w+)", a)) == {"LIQUID", "ELEMENTS", "LIQUID_TESTNET"} and a.count("address::AddressParams::") == 3 for a in arrs),
